@@ -50,6 +50,8 @@ type node struct {
 	LineFrom int    // set by render
 	LineTo   int
 	Mutated  bool
+	FV       reflect.Value   // attr: the struct field behind it (settable when build got an addressable value)
+	LV       []reflect.Value // block: the label fields
 }
 
 type printer struct {
@@ -651,7 +653,7 @@ func (p *printer) build(v reflect.Value, path string) []*node {
 				}
 				p.cls("explicit-zero")
 			}
-			n := &node{Kind: "attr", Name: f.name, Path: fp, F: f, Ty: ty}
+			n := &node{Kind: "attr", Name: f.name, Path: fp, F: f, Ty: ty, FV: fv}
 			p.cur = fp
 			switch f.vk {
 			case "string":
@@ -726,6 +728,7 @@ func (p *printer) build(v reflect.Value, path string) []*node {
 					if lf.kind == fLabel {
 						p.cur = bp + "." + lf.name
 						n.Labels = append(n.Labels, p.label(e.Field(lf.idx).String()))
+						n.LV = append(n.LV, e.Field(lf.idx))
 						p.cur = ""
 					}
 				}
